@@ -48,21 +48,21 @@ Print Assumptions C20_translation_facts.
    any length S f0 (class Half(A[int, U]); class Full(Half[str]) - fix 645b1a0): the mapping of the declaring class's
    TypeVars to the arguments resolved along the chain (Spec `resolve`), all of them bound, however the instance was
    made (also inside __init__). *)
-Theorem C20_type_vars_exact : forall tv w f0 k c ts xs,
+Theorem C20_type_vars_exact : forall w f0 k c ts xs,
   (direct_generic w c ts -> forall o, type_vars_at w k c (Some (VAlias o xs)) = Ok (VDict (combine ts xs))) /\
-  (chain_binding tv w (S f0) c ts xs -> forall oc, type_vars_at w (f0 + k) c oc = Ok (VDict (combine ts xs))).
+  (chain_binding w (S f0) c ts xs -> forall oc, type_vars_at w (f0 + k) c oc = Ok (VDict (combine ts xs))).
 Proof.
-  intros. split; intros H ?; [now apply tv_direct|now apply tv_chain with tv].
+  intros. split; intros H ?; [now apply tv_direct|now apply tv_chain].
 Qed.
 Print Assumptions C20_type_vars_exact.
 
-(* the case of a binding base that declares Generic[..] itself (chain of length 1), without reference to `resolve` *)
-Theorem C20_type_vars_exact_declaring_base : forall tv w k c ts xs,
-  binding_subclass w c ts xs ->
-  (forall oc, type_vars_at w k c oc = Ok (VDict (combine ts xs))) /\
-  (forallb (fun x => negb (tv x)) xs = true -> chain_binding tv w 1 c ts xs).
+(* the case of a binding base that declares Generic[..] itself (chain of length 1), without reference to `resolve`;
+   "binds all parameters": no argument is a TypeVar of the world (is_param) *)
+Theorem C20_type_vars_exact_declaring_base : forall w k c ts xs,
+  binding_subclass w c ts xs -> forallb (fun x => negb (is_param w x)) xs = true ->
+  chain_binding w 1 c ts xs /\ forall oc, type_vars_at w k c oc = Ok (VDict (combine ts xs)).
 Proof.
-  intros tv w k c ts xs H. split; [intro; now apply tv_binding|now apply binding_is_chain].
+  intros w k c ts xs H Hc. split; [now apply binding_is_chain|intro; now apply tv_binding].
 Qed.
 Print Assumptions C20_type_vars_exact_declaring_base.
 
@@ -93,7 +93,6 @@ Qed.
      class A2(Generic[T0, T1], GenericMixin) = 20;  class Half(A2[X22, T1]) = 21;  class Full(Half[X23]) = 22
                                                                                       -> {T0: X22, T1: X23}
      class D(Generic[T2], GenericMixin) = 30;  class E(Mid[X21], D[X24]) = 31          -> {T0: X21} *)
-Definition fw_tv (v : val) : bool := match v with VTok n => Nat.ltb n 20 | _ => false end.
 Definition fw_world : world :=
   {| w_classes := [(10, {| c_own_ob := Some [VAlias VGeneric [VTok 0]; VCls 1]; c_mro := [10; 2; 1; 0]; c_params := [] |});
                    (11, {| c_own_ob := Some [VAlias (VCls 10) [VTok 0]]; c_mro := [11; 10; 2; 1; 0]; c_params := [VTok 0] |});
@@ -106,21 +105,21 @@ Definition fw_world : world :=
      w_attrs := []; w_mixin := 1 |}.
 
 Example C20_example_forwarding_chains :
-  chain_binding fw_tv fw_world 2 12 [VTok 0] [VTok 21] /\
-  chain_binding fw_tv fw_world 2 22 [VTok 0; VTok 1] [VTok 22; VTok 23] /\
-  chain_binding fw_tv fw_world 2 31 [VTok 0] [VTok 21] /\
+  chain_binding fw_world 2 12 [VTok 0] [VTok 21] /\
+  chain_binding fw_world 2 22 [VTok 0; VTok 1] [VTok 22; VTok 23] /\
+  chain_binding fw_world 2 31 [VTok 0] [VTok 21] /\
   (forall k oc, type_vars_at fw_world (1 + k) 12 oc = Ok (VDict [(VTok 0, VTok 21)])) /\
   (forall k oc, type_vars_at fw_world (1 + k) 22 oc = Ok (VDict [(VTok 0, VTok 22); (VTok 1, VTok 23)])) /\
   (forall k oc, type_vars_at fw_world (1 + k) 31 oc = Ok (VDict [(VTok 0, VTok 21)])) /\
   (forall oc, type_vars_at fw_world 0 12 oc = Raise DivergeC).
 Proof.
-  assert (H12 : chain_binding fw_tv fw_world 2 12 [VTok 0] [VTok 21]) by (apply chain_binding_b_sound; vm_compute; reflexivity).
-  assert (H22 : chain_binding fw_tv fw_world 2 22 [VTok 0; VTok 1] [VTok 22; VTok 23]) by (apply chain_binding_b_sound; vm_compute; reflexivity).
-  assert (H31 : chain_binding fw_tv fw_world 2 31 [VTok 0] [VTok 21]) by (apply chain_binding_b_sound; vm_compute; reflexivity).
+  assert (H12 : chain_binding fw_world 2 12 [VTok 0] [VTok 21]) by (apply chain_binding_b_sound; vm_compute; reflexivity).
+  assert (H22 : chain_binding fw_world 2 22 [VTok 0; VTok 1] [VTok 22; VTok 23]) by (apply chain_binding_b_sound; vm_compute; reflexivity).
+  assert (H31 : chain_binding fw_world 2 31 [VTok 0] [VTok 21]) by (apply chain_binding_b_sound; vm_compute; reflexivity).
   split; [exact H12|]. split; [exact H22|]. split; [exact H31|].
-  split; [intros k oc; exact (tv_chain _ _ 1 k _ oc _ _ H12)|].
-  split; [intros k oc; exact (tv_chain _ _ 1 k _ oc _ _ H22)|].
-  split; [intros k oc; exact (tv_chain _ _ 1 k _ oc _ _ H31)|].
+  split; [intros k oc; exact (tv_chain _ 1 k _ oc _ _ H12)|].
+  split; [intros k oc; exact (tv_chain _ 1 k _ oc _ _ H22)|].
+  split; [intros k oc; exact (tv_chain _ 1 k _ oc _ _ H31)|].
   intro oc. reflexivity.
 Qed.
 
@@ -133,11 +132,21 @@ Proof.
 Qed.
 Print Assumptions C20_type_vars_order.
 
-(* plain sub-subclasses and extra non-generic bases (mixins) in front: a class without __orig_bases__ of its
-   own, behind any number of such classes on the MRO, has the shape of the first class that has some *)
-Theorem C20_type_vars_inherited : forall w c s before after bases,
-  inherits_bases_of w c s before after -> own_ob w s = Some bases -> lookup_ob w c = Some bases.
-Proof. exact lookup_inherits. Qed.
+(* plain sub-subclasses and extra non-generic bases (mixins) in front on the MRO.
+   Full statement (FALSE on the pinned tree, see C20_type_vars_mro_refuted):
+     forall w f0 k c ts xs oc, mro_chain_binding_b w (S f0) c ts xs = true -> type_vars_at w (f0 + k) c oc = Ok (VDict (combine ts xs))
+   - in front of the class s whose class statement binds the parameters the MRO may hold classes without
+   __orig_bases__ and classes all of whose __orig_bases__ are classes / parametrised bases that have nothing to do
+   with the mixin (class Extra(List[int])).  What is proved (narrowest guard: the first class on the MRO that has
+   __orig_bases__ at all is s): *)
+Theorem C20_type_vars_inherited : forall w f0 k c s before after bases ts xs oc,
+  inherits_bases_of w c s before after -> own_ob w s = Some bases -> lookup_ob w s = Some bases ->
+  chain_binding w (S f0) s ts xs ->
+  lookup_ob w c = Some bases /\ type_vars_at w (f0 + k) c oc = Ok (VDict (combine ts xs)).
+Proof.
+  intros w f0 k c s before after bases ts xs oc Hi Ho Hs Hc. split; [now apply lookup_inherits with s before after|].
+  apply tv_chain. now apply chain_inherited with s before after bases.
+Qed.
 Print Assumptions C20_type_vars_inherited.
 
 (* non-generic class, unparametrised instance (also: still inside __init__): AssertionError, never a dict *)
@@ -153,25 +162,68 @@ Proof.
 Qed.
 Print Assumptions C20_non_generic_or_unparametrised_asserts.
 
+(* Full statements of the two AssertionError clauses, FALSE on the pinned tree:
+     non-generic class:   forall w k c oc, non_generic_b w c = true -> type_vars_at w k c oc = Raise AssertionErrorC
+     unparametrised:      forall w k c, has_params_b w c = true -> type_vars_at w k c None = Raise AssertionErrorC
+   (a class is non-generic when neither Generic[..] nor a parametrised base that uses the mixin is among the
+   __orig_bases__ found; an instance is unparametrised when its class has type parameters and it has no
+   __orig_class__).  Proved above: no __orig_bases__ at all / the class declares Generic[..] itself.  Witnesses
+   (the mixin is class 1, list is class 50):
+     class N1(List[X20], GenericMixin) = 60         N1().type_vars raises AttributeError   (K-C20-nongeneric-foreign-base)
+     class A(Generic[T0], GenericMixin) = 10; class Mid(A[T0]) = 11
+                                                    Mid().type_vars == {T0: T0}            (K-C20-unparametrised-forwarding)
+     class D = 30; class Extra(List[X20]) = 61; class S(D[X24]) = 62; class S2(Extra, S) = 63
+                                                    S2().type_vars raises AttributeError   (K-C20-foreign-subclass-first-on-mro) *)
+Definition na_world : world :=
+  {| w_classes := [(10, {| c_own_ob := Some [VAlias VGeneric [VTok 0]; VCls 1]; c_mro := [10; 2; 1; 0]; c_params := [VTok 0] |});
+                   (11, {| c_own_ob := Some [VAlias (VCls 10) [VTok 0]]; c_mro := [11; 10; 2; 1; 0]; c_params := [VTok 0] |});
+                   (30, {| c_own_ob := Some [VAlias VGeneric [VTok 2]; VCls 1]; c_mro := [30; 2; 1; 0]; c_params := [VTok 2] |});
+                   (60, {| c_own_ob := Some [VAlias (VCls 50) [VTok 20]; VCls 1]; c_mro := [60; 50; 1; 0]; c_params := [] |});
+                   (61, {| c_own_ob := Some [VAlias (VCls 50) [VTok 20]]; c_mro := [61; 50; 0]; c_params := [] |});
+                   (62, {| c_own_ob := Some [VAlias (VCls 30) [VTok 24]]; c_mro := [62; 30; 2; 1; 0]; c_params := [] |});
+                   (63, {| c_own_ob := None; c_mro := [63; 61; 50; 62; 30; 2; 1; 0]; c_params := [] |})];
+     w_attrs := []; w_mixin := 1 |}.
+
+Theorem C20_asserts_refuted :
+  (exists w c, non_generic_b w c = true /\ forall k oc, type_vars_at w k c oc = Raise AttributeErrorC) /\
+  (exists w c, has_params_b w c = true /\ is_param w (VTok 0) = true /\
+               forall k, type_vars_at w k c None = Ok (VDict [(VTok 0, VTok 0)])).
+Proof.
+  split.
+  - exists na_world, 60. split; [reflexivity|intros; reflexivity].
+  - exists na_world, 11. split; [reflexivity|]. split; [reflexivity|intros; reflexivity].
+Qed.
+Print Assumptions C20_asserts_refuted.
+
+Theorem C20_type_vars_mro_refuted : exists w c ts xs,
+  mro_chain_binding_b w 1 c ts xs = true /\ combine ts xs = [(VTok 2, VTok 24)] /\
+  (forall k oc, type_vars_at w k c oc = Raise AttributeErrorC) /\
+  (forall k oc, type_vars_at w k 62 oc = Ok (VDict [(VTok 2, VTok 24)])).
+Proof.
+  exists na_world, 63, [VTok 2], [VTok 24]. split; [vm_compute; reflexivity|]. split; [reflexivity|].
+  split; intros; reflexivity.
+Qed.
+Print Assumptions C20_type_vars_mro_refuted.
+
 (* type_var: the single argument when n = 1; AssertionError when n <> 1 *)
-Theorem C20_type_var_single : forall tv w f0 k c t x,
+Theorem C20_type_var_single : forall w f0 k c t x,
   (direct_generic w c [t] -> forall o, type_var_at w k c (Some (VAlias o [x])) = Ok x) /\
-  (chain_binding tv w (S f0) c [t] [x] -> forall oc, type_var_at w (f0 + k) c oc = Ok x).
+  (chain_binding w (S f0) c [t] [x] -> forall oc, type_var_at w (f0 + k) c oc = Ok x).
 Proof.
   intros. split; intros H ?.
   - now rewrite (tvar_direct w k c _ [x] [t] H).
-  - now rewrite (tvar_chain tv w f0 k c _ [t] [x] H).
+  - now rewrite (tvar_chain w f0 k c _ [t] [x] H).
 Qed.
 Print Assumptions C20_type_var_single.
 
-Theorem C20_type_var_several_asserts : forall tv w f0 k c ts xs,
+Theorem C20_type_var_several_asserts : forall w f0 k c ts xs,
   List.length ts = List.length xs -> List.length ts <> 1%nat ->
   (direct_generic w c ts -> forall o, type_var_at w k c (Some (VAlias o xs)) = Raise AssertionErrorC) /\
-  (chain_binding tv w (S f0) c ts xs -> forall oc, type_var_at w (f0 + k) c oc = Raise AssertionErrorC).
+  (chain_binding w (S f0) c ts xs -> forall oc, type_var_at w (f0 + k) c oc = Raise AssertionErrorC).
 Proof.
-  intros tv w f0 k c ts xs Hl Hn. split; intros H ?.
+  intros w f0 k c ts xs Hl Hn. split; intros H ?.
   - rewrite (tvar_direct w k c _ xs ts H). now apply type_var_of_many.
-  - rewrite (tvar_chain tv w f0 k c _ ts xs H). now apply type_var_of_many.
+  - rewrite (tvar_chain w f0 k c _ ts xs H). now apply type_var_of_many.
 Qed.
 Print Assumptions C20_type_var_several_asserts.
 
@@ -187,12 +239,12 @@ Print Assumptions C20_type_vars_oracle.
 
 (* the same for the layouts with a chain of forwarding / partially binding classes (the driver passes the TypeVars of
    the declaring class and the arguments it resolved itself; `chain_binding_b` recomputes them with Spec `resolve`) *)
-Theorem C20_type_vars_chain_oracle : forall tv w f0 k c oc ts xs,
-  chain_binding_b tv w (S f0) c ts xs = true -> forallb self_eq ts = true -> forallb self_eq xs = true ->
+Theorem C20_type_vars_chain_oracle : forall w f0 k c oc ts xs,
+  chain_binding_b w (S f0) c ts xs = true -> forallb self_eq ts = true -> forallb self_eq xs = true ->
   meets (type_vars_at w (f0 + k) c oc) (ExpDict (combine ts xs)) = true.
 Proof.
-  intros tv w f0 k c oc ts xs H Hs Hx. apply chain_binding_b_sound in H.
-  rewrite (tv_chain tv w f0 k c oc ts xs H). cbn [meets].
+  intros w f0 k c oc ts xs H Hs Hx. apply chain_binding_b_sound in H.
+  rewrite (tv_chain w f0 k c oc ts xs H). cbn [meets].
   destruct H as (_ & _ & _ & _ & _ & _ & _ & _ & _ & _ & Hd & _). now apply same_dict_zip.
 Qed.
 Print Assumptions C20_type_vars_chain_oracle.
@@ -229,11 +281,12 @@ Print Assumptions C20_class_body.
 (* ---------------------------------------------------------------------------------------------------- *)
 (* get_decorated_functions                                                                                  *)
 
-(* Full statement (C20_decorated_exact), FALSE on the pinned tree - see C20_decorated_dunder_refuted:
+(* Full statement (C20_decorated_exact), FALSE on the pinned tree - see C20_decorated_dunder_refuted and
+   C20_decorated_raising_descriptor_refuted (`claimed cd` = `in_domain cd` + `no_raising_getter cd`, lemma claimed_split):
 
      forall w k c oc e ms cd,
        binding_subclass w c [e] [VEnumCls ms] -> nodup_str ms = true ->
-       build_table Gen.Mixins.prog_decorator_fun cd = Ok (w_attrs w) -> claimed cd = true -> alias_consistent cd ->
+       build_table Gen.Mixins.prog_decorator_fun cd = Ok (w_attrs w) -> in_domain cd = true -> alias_consistent cd ->
        spec_decorated_ok ms cd (gdf_at w k c oc) = true.
 
    class K(<extra bases>, WithDecoratedMethods[Decorators], ...) - any class layout with that shape, any enum
@@ -265,18 +318,19 @@ Proof.
 Qed.
 Print Assumptions C20_decorated_exact_modulo_dunder.
 
-(* the property, under the narrowest guard that excludes known finding K9: no *decorated method* has a name
-   that starts with two underscores (undecorated dunder methods, dunder attributes are fine) *)
+(* the property, under the narrowest guards that exclude the known findings: K9 - no *decorated method* has a name
+   that starts with two underscores (undecorated dunder methods, dunder attributes are fine); K-C20-raising-descriptor -
+   no non-property descriptor of the class (functools.cached_property, custom descriptor) raises when read *)
 Theorem C20_decorated_exact_partial : forall w k c oc e ms cd,
   binding_subclass w c [e] [VEnumCls ms] -> nodup_str ms = true ->
-  build_table Gen.Mixins.prog_decorator_fun cd = Ok (w_attrs w) -> claimed cd = true -> alias_consistent cd ->
-  no_decorated_dunder cd = true ->
+  build_table Gen.Mixins.prog_decorator_fun cd = Ok (w_attrs w) -> in_domain cd = true -> alias_consistent cd ->
+  no_decorated_dunder cd = true -> no_raising_getter cd = true ->
   spec_decorated_ok ms cd (gdf_at w k c oc) = true /\
   exists d, gdf_at w k c oc = Ok (VDict d) /\ map fst d = map VStr ms /\
     forall t, In t ms -> exists inner, dict_get (VStr t) d = Some (VDict inner) /\
       (forall i y, In (i, y) (pairs_of inner) <-> In (i, y) (decorated cd t)).
 Proof.
-  intros w k c oc e ms cd Hb Hms Ht Hc Hal Hnd.
+  intros w k c oc e ms cd Hb Hms Ht Hdom Hal Hnd Hnr. pose proof (claimed_split cd Hdom Hnr) as Hc.
   assert (Hw : w_attrs w = map entry_of cd).
   { destruct (C20_class_body cd Hc) as [Hbt _]. rewrite Hbt in Ht. now inversion Ht. }
   split.
@@ -344,6 +398,34 @@ Proof.
   assert (Hb : binding_subclass rp_world 1 [VTok 0] [VEnumCls k9_ms]) by (apply wdm_binding with 2; reflexivity).
   repeat split; try reflexivity; try assumption.
 Qed.
+
+(* known finding K-C20-raising-descriptor (the residue behind the fixed K-C20-raising-property): properties are skipped,
+   every other attribute is still read with getattr(self, name):
+     class K(WithDecoratedMethods[D]):  boom = functools.cached_property(<raises ValueError>);  @foo(1) def m(self)
+   -> the ValueError leaves get_decorated_functions instead of {FOO: {k.m: 1}} *)
+Definition rd_cd : list mdef :=
+  [ {| m_name := "boom"; m_id := 1; m_inner := []; m_wrap := WGetter (ARaise ValueErrorC); m_outer := [] |};
+    {| m_name := "m"; m_id := 2; m_inner := [{| d_type := "_foo"; d_val := VInt 1; d_tr := TrNone |}];
+       m_wrap := WPlain; m_outer := [] |} ].
+Definition rd_world : world :=
+  {| w_classes := [(1, {| c_own_ob := Some [VAlias (VCls 2) [VEnumCls k9_ms]]; c_mro := [1; 2; 900; 901]; c_params := [] |});
+                   (2, {| c_own_ob := Some Gen.Mixins.wdm_own_bases; c_mro := [2; 900; 901]; c_params := [VTok 0] |})];
+     w_attrs := [("boom", ARaise ValueErrorC); ("m", AVal (VObj 2 [("_foo", VInt 1)]))]; w_mixin := 901 |}.
+
+Theorem C20_decorated_raising_descriptor_refuted : exists w c e ms cd,
+  binding_subclass w c [e] [VEnumCls ms] /\ nodup_str ms = true /\
+  build_table Gen.Mixins.prog_decorator_fun cd = Ok (w_attrs w) /\ in_domain cd = true /\ alias_consistent cd /\
+  no_decorated_dunder cd = true /\ decorated cd "_foo" = [(2, VInt 1)] /\
+  (forall k oc, gdf_at w k c oc = Raise ValueErrorC) /\
+  (forall k oc, spec_decorated_ok ms cd (gdf_at w k c oc) = false).
+Proof.
+  exists rd_world, 1, (VTok 0), k9_ms, rd_cd.
+  assert (Hal : alias_consistent rd_cd).
+  { intros m1 m2 [<-|[<-|[]]] [<-|[<-|[]]] M1 M2 E; try reflexivity; discriminate. }
+  split; [apply wdm_binding with 2; reflexivity|].
+  repeat split; try reflexivity; try assumption.
+Qed.
+Print Assumptions C20_decorated_raising_descriptor_refuted.
 
 (* unparametrised use - class K(WithDecoratedMethods): AssertionError *)
 Theorem C20_decorated_unparametrised_asserts : forall w k c ts,
